@@ -34,7 +34,7 @@ fn types12() -> Vec<(u8, u8)> {
 }
 fn full_alphabet() -> Vec<Sym> {
     let mut v = vec![];
-    for ecu in [None, Some("E1"), Some("E2")] {
+    for ecu in [None, Some("E1"), Some("E2"), Some(""), Some(" ")] {
         v.push(Sym { ecu, ext: None, short: 0 });
         v.push(Sym { ecu, ext: None, short: 1 });
         v.push(Sym { ecu, ext: None, short: 3 });
@@ -67,6 +67,9 @@ fn subset12() -> Vec<Sym> {
         Sym { ecu: Some("E1"), ext: Some((0, 3, true, "", "")), short: 0 },
         Sym { ecu: None, ext: None, short: 1 },
         Sym { ecu: Some("E1"), ext: None, short: 4 },
+        // an ECU id field that is present but empty / blank is an id like any other, not "no ECU id"
+        Sym { ecu: Some(""), ext: Some((0, 4, true, "A1", "C1")), short: 0 },
+        Sym { ecu: Some("    "), ext: None, short: 0 },
     ]
 }
 fn subset4() -> Vec<Sym> {
